@@ -5,7 +5,7 @@ import glob, json, os, re, subprocess
 ROOT = os.path.dirname(os.path.dirname(os.path.abspath(__file__)))
 def seeded():
     rows = ["| seeded change | property | needs in order to manifest | result of the checks |", "|---|---|---|---|"]
-    for d in sorted(glob.glob(os.path.join(ROOT, "seeded", "*"))):
+    for d in sorted(glob.glob(os.path.join(ROOT, "seeded", "[!_]*"))):
         m = json.load(open(os.path.join(d, "meta.json")))
         esc = lambda s: " ".join(str(s).replace("|", "\\|").split())
         rows.append(f"| {os.path.basename(d)} | {m.get('property','')} | {esc(m.get('needs',''))[:260]} | {esc(m.get('checks_run',''))[:330]} |")
